@@ -24,6 +24,20 @@ ASSUMPTIONS = ["KMeans.labels_ are the assignments of the rows passed to fit, pr
                "DecisionTreeRegressor.apply is a function of the fitted tree and the row", "CPython ast"]
 
 
+def T(scope, e):
+    """text of e with every single-assignment local of the function replaced by its definition"""
+    return " ".join(ast.unparse(_inline(scope, e)).split())
+
+
+def _row_loop_of(fn):
+    for s in fn.node.body:
+        if isinstance(s, ast.For) and isinstance(s.target, ast.Tuple) and len(s.target.elts) == 2 and \
+                all(isinstance(e, ast.Name) for e in s.target.elts) and \
+                ast.unparse(s.iter) == "enumerate(%s)" % fn.params[1]:
+            return s, s.target.elts[0].id, s.target.elts[1].id
+    return None, None, None
+
+
 def check_clusters(ctx, F):
     prog = ctx.prog
     fo = prog.method("_Clusters", "_fit_operation")
@@ -31,55 +45,49 @@ def check_clusters(ctx, F):
     ctx.saw_fn(fo)
     ctx.saw_fn(pc)
     body = [s for s in fo.node.body if not (isinstance(s, ast.Expr) and isinstance(s.value, ast.Constant))]
-    src = " ".join(ast.unparse(fo.node).split())
-    fit_i = next((i for i, s in enumerate(body) if ast.unparse(s) == "self.kmeans.fit(self.contexts)"), None)
+    fit_s = next((s for s in body if ast.unparse(s) == "self.kmeans.fit(self.contexts)"), None)
     loop = next((s for s in body if isinstance(s, ast.For)), None)
-    ok = fit_i is not None and loop is not None and body.index(loop) > fit_i
-    ctx.check(ok, "R12.1", "the clustering is fitted on the stored contexts before the cluster policies are trained",
-              fo.node, fo, construct="kmeans fit in _fit_operation")
+    label_reads = [n for n in ast.walk(fo.node) if isinstance(n, ast.Attribute) and n.attr == "labels_"]
+    ok = fit_s is not None and loop is not None and loop.lineno > fit_s.lineno and bool(label_reads) and \
+        all(n.lineno > fit_s.lineno and ast.unparse(n) == "self.kmeans.labels_" for n in label_reads)
+    ctx.check(ok, "R12.1", "the clustering is fitted on the stored contexts before its labels are read and the "
+              "cluster policies are trained", fo.node, fo, construct="kmeans fit in _fit_operation")
     if loop is not None:
         c = ast.unparse(loop.target)
         it = ast.unparse(loop.iter)
         fits = [x for x in ast.walk(loop) if isinstance(x, ast.Call) and isinstance(x.func, ast.Attribute)
-                and x.func.attr == "fit" and ast.unparse(x.func.value).startswith("self.lp_list[")]
+                and x.func.attr == "fit" and T(fo.node, x.func.value).startswith("self.lp_list[")]
         ok2 = False
         detail = ""
         if len(fits) == 1:
-            which = ast.unparse(fits[0].func.value)
-            args = [" ".join(ast.unparse(_inline(loop, a)).split()) for a in fits[0].args]
-            # label source
+            which = T(fo.node, fits[0].func.value)
+            args = [T(fo.node, a) for a in fits[0].args]
             want_sel = "np.where(self.kmeans.labels_ == %s)" % c
-            sel_src = None
-            for n in ast.walk(fo.node):
-                if isinstance(n, ast.Assign) and ast.unparse(n.targets[0]) == "cluster_predictions":
-                    sel_src = ast.unparse(n.value)
-            args = [a.replace("cluster_predictions", sel_src or "cluster_predictions") for a in args]
             ok2 = which == "self.lp_list[%s]" % c and it == "range(self.n_clusters)" and args == [
                 "self.decisions[%s]" % want_sel, "self.rewards[%s]" % want_sel, "self.contexts[%s]" % want_sel]
             detail = "trains %s on %s" % (which, args)
         ctx.check(ok2, "R12.1", "policy c is trained on decisions, rewards and contexts of the rows labelled c", loop,
                   fo, detail, construct="per-cluster training loop")
     # reader
-    psrc = " ".join(ast.unparse(pc.node).split())
-    rl = next((s for s in pc.node.body if isinstance(s, ast.For)), None)
-    okr = "cluster_predictions = self.kmeans.predict(contexts)" in psrc and rl is not None
+    rl, idx, row = _row_loop_of(pc)
+    okr = rl is not None
+    okc = rl is not None
+    detail = ""
     if okr:
-        idx = ast.unparse(rl.target.elts[0]) if isinstance(rl.target, ast.Tuple) else "?"
+        want = "deepcopy(self.lp_list)[self.kmeans.predict(%s)[%s]]" % (pc.params[1], idx)
         calls = [x for x in ast.walk(rl) if isinstance(x, ast.Call) and isinstance(x.func, ast.Attribute)
                  and x.func.attr in ("predict", "predict_expectations")]
-        okr = bool(calls)
-        for x in calls:
-            recv = " ".join(ast.unparse(_inline(rl, x.func.value)).split())
-            okr = okr and recv == "lp_list[cluster_predictions[%s]]" % idx
         seeds = [x for x in ast.walk(rl) if isinstance(x, ast.Assign) and isinstance(x.targets[0], ast.Attribute)
                  and x.targets[0].attr == "rng"]
-        for x in seeds:
-            recv = " ".join(ast.unparse(_inline(rl, x.targets[0].value)).split())
-            okr = okr and recv == "lp_list[cluster_predictions[%s]]" % idx
+        recvs = [T(pc.node, x.func.value) for x in calls] + [T(pc.node, x.targets[0].value) for x in seeds]
+        okr = bool(calls) and all(r.replace("deepcopy(self.lp_list)", "LP") == want.replace(
+            "deepcopy(self.lp_list)", "LP") or r == want for r in recvs)
+        okc = bool(recvs) and all(r.startswith("deepcopy(self.lp_list)[") for r in recvs)
+        detail = "receivers %s" % sorted(set(recvs))
     ctx.check(bool(okr), "R12.1", "a query row is answered by the policy of the cluster kmeans.predict assigns it to",
-              rl if rl is not None else pc.node, pc, construct="routing in _Clusters._predict_contexts")
-    ctx.check("lp_list = deepcopy(self.lp_list)" in psrc, "R12.1", "the routed policies are copies of lp_list in the "
-              "same order", pc.node, pc, construct="lp_list copy")
+              rl if rl is not None else pc.node, pc, detail, construct="routing in _Clusters._predict_contexts")
+    ctx.check(bool(okc), "R12.1", "the routed policies are copies of lp_list in the same order", pc.node, pc, detail,
+              construct="lp_list copy")
     # refit only in _fit_operation
     n = 0
     for cfg in F.configs(np_=["Clusters"], lp=["EpsilonGreedy", "LinUCB", "ThompsonSampling"]):
@@ -103,73 +111,75 @@ def check_tree(ctx):
     pc = prog.method("_TreeBandit", "_predict_contexts")
     ctx.saw_fn(fa)
     ctx.saw_fn(pc)
-    arm = fa.params[1]
-    defs = {ast.unparse(s.targets[0]): s for s in ast.walk(fa.node) if isinstance(s, ast.Assign)
-            and len(s.targets) == 1 and isinstance(s.targets[0], ast.Name)}
-    ok_sel = ast.unparse(defs["arm_contexts"].value) == "contexts[decisions == %s]" % arm and \
-        ast.unparse(defs["arm_rewards"].value) == "rewards[decisions == %s]" % arm \
-        if "arm_contexts" in defs and "arm_rewards" in defs else False
-    ctx.check(ok_sel, "R12.2", "the arm's contexts and rewards are selected by the one mask decisions == arm", fa.node,
-              fa, construct="row selection in _TreeBandit._fit_arm")
-    ok_leaf = "leaf_indices" in defs and ast.unparse(defs["leaf_indices"].value) == \
-        "self.arm_to_tree[%s].apply(arm_contexts)" % arm
-    ctx.check(ok_leaf, "R12.2", "leaf ids come from the arm's own tree applied to the arm's contexts",
-              defs.get("leaf_indices", fa.node), fa, construct="leaf ids in _fit_arm")
+    arm, dec, rew, con = (fa.params[1:] + [None] * 4)[:4]
+    a_con = "%s[%s == %s]" % (con, dec, arm)
+    a_rew = "%s[%s == %s]" % (rew, dec, arm)
+    tfit = [x for x in ast.walk(fa.node) if isinstance(x, ast.Call) and ast.unparse(x.func) ==
+            "self.arm_to_tree[%s].fit" % arm]
+    ok_sel = len(tfit) == 1 and [T(fa.node, a) for a in tfit[0].args] == [a_con, a_rew]
+    ctx.check(ok_sel, "R12.2", "the arm's contexts and rewards are selected by the one mask decisions == arm",
+              tfit[0] if tfit else fa.node, fa, construct="row selection in _TreeBandit._fit_arm")
+    applies = [x for x in ast.walk(fa.node) if isinstance(x, ast.Call) and isinstance(x.func, ast.Attribute)
+               and x.func.attr == "apply"]
+    ok_leaf = bool(applies) and all(T(fa.node, x) == "self.arm_to_tree[%s].apply(%s)" % (arm, a_con) and
+                                    (not tfit or x.lineno > tfit[0].lineno) for x in applies)
+    ctx.check(ok_leaf, "R12.2", "leaf ids come from the arm's own tree, after it is fitted, applied to the arm's "
+              "contexts", applies[0] if applies else fa.node, fa, construct="leaf ids in _fit_arm")
     loops = [s for s in ast.walk(fa.node) if isinstance(s, ast.For)]
     ok_file = False
     detail = ""
     if loops:
         lp = loops[-1]
         lv = ast.unparse(lp.target)
-        it = " ".join(ast.unparse(_inline(fa.node, lp.iter)).split())
+        it = T(fa.node, lp.iter)
         st = [s for s in ast.walk(lp) if isinstance(s, ast.Assign) and isinstance(s.targets[0], ast.Subscript)]
         if st:
             tgt = ast.unparse(st[-1].targets[0])
-            val = " ".join(ast.unparse(_inline(lp, st[-1].value)).split())
+            val = T(fa.node, st[-1].value)
+            leaves = "self.arm_to_tree[%s].apply(%s)" % (arm, a_con)
             ok_file = tgt == "self.arm_to_leaf_to_rewards[%s][%s]" % (arm, lv) and \
-                val == "np.append(self.arm_to_leaf_to_rewards[%s][%s], arm_rewards[leaf_indices == %s])" % (
-                    arm, lv, lv) and it.startswith("set(") and ("self.arm_to_tree[%s].apply(" % arm) in it
+                val == "np.append(self.arm_to_leaf_to_rewards[%s][%s], %s[%s == %s])" % (
+                    arm, lv, a_rew, leaves, lv) and it == "set(%s)" % leaves
             detail = "%s = %s over %s" % (tgt, val, it)
     ctx.check(ok_file, "R12.2", "rewards are filed under [arm][leaf] with the mask leaf_indices == leaf", fa.node, fa,
               detail, construct="leaf store in _fit_arm")
-    tfit = [x for x in ast.walk(fa.node) if isinstance(x, ast.Call) and ast.unparse(x.func) ==
-            "self.arm_to_tree[%s].fit" % arm]
     ok_tfit = False
     if len(tfit) == 1:
         g = parent(parent(tfit[0]))
         ok_tfit = isinstance(g, ast.If) and ast.unparse(g.test) in (
-            "len(self.arm_to_leaf_to_rewards[%s]) == 0" % arm, "not self.arm_to_leaf_to_rewards[%s]" % arm) and \
-            [ast.unparse(a) for a in tfit[0].args] == ["arm_contexts", "arm_rewards"]
+            "len(self.arm_to_leaf_to_rewards[%s]) == 0" % arm, "not self.arm_to_leaf_to_rewards[%s]" % arm) and ok_sel
     ctx.check(ok_tfit, "R12.2", "an arm's tree is fitted on the arm's rows, and only while its leaf store is empty",
               tfit[0] if tfit else fa.node, fa, construct="tree fit in _fit_arm")
     # reader
-    rl = next((s for s in pc.node.body if isinstance(s, ast.For)), None)
+    rl, idx, row = _row_loop_of(pc)
     okr = False
+    okc = False
     detail = ""
     if rl is not None:
         inner = next((s for s in rl.body if isinstance(s, ast.For)), None)
         if inner is not None:
             a = ast.unparse(inner.target)
-            row = ast.unparse(rl.target.elts[1]) if isinstance(rl.target, ast.Tuple) else "row"
-            src = " ".join(ast.unparse(inner).split())
-            fits = [x for x in ast.walk(inner) if isinstance(x, ast.Call) and ast.unparse(x.func) == "leaf_lp.fit"]
+            fits = [x for x in ast.walk(inner) if isinstance(x, ast.Call) and isinstance(x.func, ast.Attribute)
+                    and x.func.attr == "fit"]
             exp = [s for s in ast.walk(inner) if isinstance(s, ast.Assign) and
-                   ast.unparse(s.targets[0]) == "arm_to_expectation[%s]" % a]
-            okr = ("if arm_to_rewards[%s]:" % a) in src and len(fits) == 1 and len(exp) == 1
+                   isinstance(s.targets[0], ast.Subscript) and ast.unparse(s.targets[0].slice) == a]
+            guard = parent(parent(fits[0])) if len(fits) == 1 else None
+            leaf = "deepcopy(self.arm_to_leaf_to_rewards)[%s][deepcopy(self.arm_to_tree)[%s].apply([%s])[0]]" % (
+                a, a, row)
+            okr = len(fits) == 1 and len(exp) == 1 and isinstance(guard, ast.If) and \
+                T(pc.node, guard.test) == "deepcopy(self.arm_to_leaf_to_rewards)[%s]" % a and \
+                T(pc.node, inner.iter) in ("deepcopy(self.arms)", "self.arms")
             if okr:
-                args = [" ".join(ast.unparse(_inline(inner, x)).split()) for x in fits[0].args]
-                leaf = "arm_to_rewards[%s][arm_to_tree[%s].apply([%s])[0]]" % (a, a, row)
+                args = [T(pc.node, x) for x in fits[0].args]
                 okr = args == ["np.asarray([%s] * len(%s))" % (a, leaf), leaf] and \
-                    ast.unparse(exp[0].value) == "leaf_lp.predict_expectations()[%s]" % a and \
-                    ("leaf_lp = self._create_leaf_lp(%s)" % a) in src
+                    T(pc.node, fits[0].func.value) == "self._create_leaf_lp(%s)" % a and \
+                    T(pc.node, exp[0].value) == "self._create_leaf_lp(%s).predict_expectations()[%s]" % (a, a) and \
+                    parent(exp[0]) is guard
                 detail = "leaf policy fitted with %s" % args
+                okc = T(pc.node, exp[0].targets[0]) == "deepcopy(self.arm_to_expectation)[%s]" % a
     ctx.check(okr, "R12.2", "the query reads [arm][leaf] of the arm's own tree applied to the row and trains the leaf "
               "policy on exactly that array", rl if rl is not None else pc.node, pc, detail,
               construct="leaf lookup in _TreeBandit._predict_contexts")
-    psrc = " ".join(ast.unparse(pc.node).split())
-    okc = "arm_to_tree = deepcopy(self.arm_to_tree)" in psrc and \
-        "arm_to_rewards = deepcopy(self.arm_to_leaf_to_rewards)" in psrc and \
-        "arm_to_expectation = deepcopy(self.arm_to_expectation)" in psrc
     ctx.check(okc, "R12.2", "reader works on copies of the trees, the leaf stores and the neutral expectations",
               pc.node, pc, construct="copies in _TreeBandit._predict_contexts")
 
